@@ -5,7 +5,7 @@
 From Coq Require Import List NArith Bool String.
 From Coq.Strings Require Import Byte.
 From GM Require Import Codec.Packet Topic.MatchSpec Broker.Backend Broker.BackendSpec
-  Broker.BackendProofsHist Broker.BackendC13 Broker.BackendC13Proofs Broker.BackendLog Broker.BackendC13Protocol.
+  Broker.BackendProofsHist Broker.BackendC13 Broker.BackendC13Proofs Broker.BackendLog Broker.BackendC13Protocol Broker.BackendFrame Broker.BackendC08.
 Import ListNotations.
 Open Scope N_scope.
 
@@ -69,6 +69,21 @@ Example C13_nonvacuous :
   fst (run (init 2) ops) = [RSetup false; ROk; ROk; RSetupWait 1; ROk; ROk; RSetup true; RMsg (Msg (b "a") (b "p") 1 false)] /\
   forallb (fun n => unique_ok (run_state (init 2) (firstn n ops))) [0;1;2;3;4;5;6;7;8]%nat = true.
 Proof. split; vm_compute; reflexivity. Qed.
+
+(* the backend resources of a connection and the session's identity, step by step (`frame_ok`, Broker/BackendFrame.v):
+   a session's active connection changes only when a Setup completes on it or its holder terminates; Terminate
+   releases the connection's temporary session; a stored session disappears only by a clean Setup of its id; nothing
+   else touches subscriptions or ownership *)
+Theorem C13_frame_state : forall cap ops,
+  Forall (fun x => let '(st, o, r, st') := x in frame_ok st o r st' = true) (trace (init cap) ops).
+Proof. exact frame_along. Qed.
+Print Assumptions C13_frame_state.
+
+(* Setup reports "resumed" exactly when clean = false and a stored session existed; a clean Setup deletes the stored
+   session and hands out a fresh empty temporary one (also the backend side of C08) *)
+Theorem C13_session_present_state : forall cap ops, holds_along session_present_ok cap ops.
+Proof. exact session_present_along. Qed.
+Print Assumptions C13_session_present_state.
 
 (* ====================================================================== PROTOCOL part (Broker/BackendC13Protocol.v)
    Steps of a history are quadruples (state before, operation, result, state after); `trace (init cap) ops`
